@@ -23,6 +23,7 @@ partial layout) and is compared with the implementation up to a recorded toleran
 """
 import itertools
 import math
+import sys
 import warnings
 from fractions import Fraction
 
@@ -31,6 +32,8 @@ import numpy as np
 from common import Property, rat, unrat, rats, match_known
 
 F = Fraction
+if hasattr(sys, 'set_int_max_str_digits'):
+    sys.set_int_max_str_digits(0)      # exact rationals from the Lean RBF solve can be very long
 
 TOL = {
     'interp': 1e-8,           # training outputs at training inputs, relative to the output scale
